@@ -291,7 +291,9 @@ func (g *gen) genStruct(c *ctx, name string, depth int, nFields int, usedNames m
 			}
 			if g.rng.Intn(3) == 0 {
 				ix.Using = []string{"BTREE", "HASH"}[g.rng.Intn(2)]
-				items = append(items, sp("index_type")+":"+strings.ToLower(ix.Using))
+				// the value's letter case is free (the template upper-cases it): lower, upper or capitalised
+				using := []string{strings.ToLower(ix.Using), ix.Using, ix.Using[:1] + strings.ToLower(ix.Using[1:])}[g.rng.Intn(3)]
+				items = append(items, sp("index_type")+":"+using)
 			}
 			f.index = ix
 			c.count("tag_index")
